@@ -64,6 +64,9 @@ pub enum Deviation {
     /// p and q keep their addresses and their values but name each other's signal (undone
     /// before the next call)
     SwapInPlace(usize, usize),
+    /// (with `foreign`) the trailing entry for the unknown signal is replaced by one for the
+    /// output-capable signal s of the test
+    ForeignReplaced(usize),
 }
 
 #[derive(Clone, Debug, PartialEq, Eq)]
@@ -82,6 +85,8 @@ pub struct DriverSpec {
     pub deviate_at: Option<(usize, Deviation)>,
     /// the device answers the same on every call
     pub constant: bool,
+    /// every answer ends with an entry for a signal the test does not know (a debug pin, say)
+    pub foreign: bool,
 }
 
 impl DriverSpec {
@@ -95,6 +100,7 @@ impl DriverSpec {
             fail_at: None,
             deviate_at: None,
             constant: false,
+            foreign: false,
         }
     }
 
@@ -236,5 +242,6 @@ pub fn gen_spec(ch: &mut Ch, sigs: &[Sig], cfg: &SpecCfg) -> DriverSpec {
         fail_at: None,
         deviate_at: None,
         constant: false,
+        foreign: false,
     }
 }
